@@ -621,6 +621,11 @@ class Interp:
                     if k.startswith(f"in[{attr}]"):
                         del st.facts[k]
             return
+        if isinstance(v, CounterVal) and v.attr == attr and v.k > st.counter_k.get(attr, 0):
+            # self.ctr = <value read from self.ctr> + n : the same advance as `self.ctr += n`
+            st.effects.append(self.snap(Effect("counter", attr, v.k - st.counter_k.get(attr, 0), line=ln, text=norm(s)), st))
+            st.counter_k[attr] = v.k
+            return
         st.effects.append(self.snap(Effect("attr_assign", attr, v, line=ln, text=norm(s)), st))
         st.session.fields[attr] = v
 
@@ -632,7 +637,7 @@ class Interp:
             if self.is_session(base, st):
                 if isinstance(s.op, ast.Add) and isinstance(v, Const) and isinstance(v.v, int):
                     st.effects.append(self.snap(Effect("counter", t.attr, v.v, line=s.lineno, text=norm(s)), st))
-                    st.counter_k[t.attr] = st.counter_k.get(t.attr, 0) + 1
+                    st.counter_k[t.attr] = st.counter_k.get(t.attr, 0) + v.v
                 else:
                     st.effects.append(self.snap(Effect("attr_assign", t.attr, Unknown(f"aug {type(s.op).__name__} {desc(v)}"), line=s.lineno, text=norm(s)), st))
                 return
@@ -710,7 +715,14 @@ class Interp:
         if isinstance(e, ast.Dict):
             return self._eval_parts([x for x in list(e.keys) + list(e.values) if x is not None], st, lambda vs: Unknown("display"))
         if isinstance(e, ast.BinOp):
-            return self._eval_parts([e.left, e.right], st, lambda vs: Unknown("binop"))
+            def binop(vs, e=e):
+                a, b = vs
+                if isinstance(e.op, ast.Add):
+                    for x, y in ((a, b), (b, a)):
+                        if isinstance(x, CounterVal) and isinstance(y, Const) and isinstance(y.v, int) and not isinstance(y.v, bool) and y.v >= 0:
+                            return CounterVal(x.attr, x.k + y.v)
+                return Unknown("binop")
+            return self._eval_parts([e.left, e.right], st, binop)
         if isinstance(e, ast.UnaryOp):
             return self._eval_parts([e.operand], st, lambda vs: Unknown("unop"))
         if isinstance(e, ast.Subscript):
@@ -999,6 +1011,8 @@ class Interp:
             return [(st, Unknown("fresh-empty-set"), None)]
         if nm in ("bytearray", "bytes", "memoryview") and len(pos) == 1:
             return [(st, Unknown(f"{nm}({desc(pos[0])})"), None)]
+        if nm == "len" and len(pos) == 1 and isinstance(pos[0], AttrRef) and pos[0].attr in self.SET_ATTRS:
+            return [(st, Unknown(f"len:{pos[0].attr}"), None)]
         if nm in ("bytearray", "bytes", "list", "dict", "set", "len", "str", "type", "next", "int", "bool", "repr", "memoryview", "id", "sorted", "tuple", "min", "max", "any", "all", "iter", "enumerate", "zip", "range", "hash", "getattr"):
             return [(st, Unknown(nm), None)]
         if nm in ("setattr", "delattr", "exec", "eval", "vars"):
@@ -1157,6 +1171,8 @@ class Interp:
             return [(st, True, None)]
         if isinstance(v, EnumV):
             return [(st, True, None)]
+        if self._len_attr(v) is not None:
+            v = AttrRef(self._len_attr(v))
         if isinstance(v, AttrRef) and v.attr in self.SET_ATTRS:
             em = st.empty.get(v.attr, "unknown")
             if em == "empty":
@@ -1202,7 +1218,22 @@ class Interp:
             return ("enum", v.cls, v.member, v.as_value)
         return v
 
+    @staticmethod
+    def _len_attr(v: Any) -> Optional[str]:
+        return v.why[4:] if isinstance(v, Unknown) and v.why.startswith("len:") else None
+
     def compare_cond(self, op: ast.cmpop, a: Any, b: Any, st: PState, e: ast.expr):
+        # len(self.<set>) compared with a small constant is an emptiness test
+        for x, y, flip in ((a, b, False), (b, a, True)):
+            attr = self._len_attr(x)
+            if attr is not None and isinstance(y, Const) and isinstance(y.v, int) and not isinstance(y.v, bool):
+                n = y.v
+                name = type(op).__name__
+                if flip:
+                    name = {"Lt": "Gt", "Gt": "Lt", "LtE": "GtE", "GtE": "LtE"}.get(name, name)
+                nonempty = {("Gt", 0): True, ("GtE", 1): True, ("NotEq", 0): True, ("Eq", 0): False, ("Lt", 1): False, ("LtE", 0): False}.get((name, n))
+                if nonempty is not None:
+                    return [(s2, t == nonempty, o) for s2, t, o in self.truthy(AttrRef(attr), st, e)]
         if isinstance(op, (ast.In, ast.NotIn)):
             neg = isinstance(op, ast.NotIn)
             if isinstance(b, AttrRef) and b.attr in self.SET_ATTRS:
